@@ -333,4 +333,172 @@ Section Concat.
       rewrite !app_nil_r in *.
       split; [left; split; congruence|]. repeat split; congruence.
   Qed.
+
+  (* ---------------------------------------------------------------- the frame loop on a list of frames *)
+  Lemma enc_all_cons : forall f fs, enc_all (f :: fs) = enc_frame f ++ enc_all fs.
+  Proof. reflexivity. Qed.
+  Lemma contents_cons : forall f fs, contents (f :: fs) = content f ++ contents fs.
+  Proof. reflexivity. Qed.
+
+  Lemma frames_loop_run : forall fs fuel mt sk fl s,
+    benign fl -> Forall valid_frame fs -> (mt = true -> Forall (fun f => is_lz4 f = false) fs) ->
+    at_frames s (enc_all fs) -> s_rerr s = false -> (length fs < fuel)%nat ->
+    exists s', frames_loop fdec bdec fuel mt false false sk fl s = Ret 0 s' /\
+       s_out s' = s_out s ++ contents fs /\ s_rerr s' = false /\ s_pasteof s' = s_pasteof s.
+  Proof.
+    induction fs as [|f fs IH]; intros fuel mt sk fl s BN V MTL AF RE LF; (destruct fuel; [cbn in LF; lia|]); cbn [frames_loop].
+    - destruct AF as [[Z0 EI]|[m [body [EB _]]]].
+      2:{ exfalso. apply (f_equal (@length byte)) in EB. rewrite app_length, le_bytes_length in EB. cbn in EB. lia. }
+      destruct BN as [NR _]. unfold select_decoder. cbn [set_nb s_magic].
+      replace (s_magic s =? 0) with true by (symmetry; apply Z.eqb_eq; exact Z0). cbn [negb].
+      destruct (fread_nf fl MAGICNUMBER_SIZE (set_nb (s_nbFrames s + 1) s) NR) as [s1 [E1 [T1 _]]]. rewrite E1. clear E1.
+      cbn [set_nb s_in] in *. rewrite EI in *. cbn [enc_all map concat firstn skipn] in *.
+      replace (firstn (Z.to_nat MAGICNUMBER_SIZE) []) with (@nil byte) by (destruct (Z.to_nat MAGICNUMBER_SIZE); reflexivity).
+      cbn [len length Z.of_nat Z.eqb].
+      destruct T1 as [A1 [A2 [A3 [A4 A5]]]]. cbn [set_nb s_in s_out s_magic s_rerr s_pasteof] in *.
+      rewrite A4, RE. eexists. split; [reflexivity|]. cbn [set_nb s_out s_rerr s_pasteof contents map concat].
+      repeat split; congruence.
+    - inversion V as [|? ? Vf Vr]; subst. rewrite enc_all_cons in AF.
+      assert (MTf : mt = true -> is_lz4 f = false) by (intros M; specialize (MTL M); inversion MTL; assumption).
+      destruct (select_run f (enc_all fs) mt sk fl s BN Vf MTf AF (enc_all_starts fs Vr) RE) as [s1 [ES [AF1 [O1 [R1 P1]]]]].
+      rewrite ES. clear ES.
+      destruct (IH fuel mt sk fl s1 BN Vr ltac:(intros M; specialize (MTL M); inversion MTL; assumption) AF1 R1 ltac:(cbn in LF; lia))
+        as [s' [E [O2 [R2 P2]]]].
+      exists s'. split; [exact E|]. rewrite contents_cons. repeat split; try congruence. rewrite O2, O1, app_assoc. reflexivity.
+  Qed.
+
+  (* C15_st_concat *)
+  Theorem st_concat : forall fs sk rm fl,
+    benign fl -> Forall valid_frame fs ->
+    let o := decompress_file fdec bdec false false false sk rm fl (enc_all fs) in
+    o_exit o = 0 /\ o_out o = contents fs /\ o_pasteof o = false /\ (rm = true -> o_removed o = true).
+  Proof.
+    intros fs sk rm fl BN V o. subst o.
+    assert (BN' := BN). destruct BN' as [NR [NW [OS [OD [CD RMF]]]]].
+    unfold decompress_file, decompress_dst, decompress_src. rewrite OD, OS. cbn [ev s_in st_init].
+    destruct (frames_loop_run fs (2 * length (enc_all fs) + 3) false sk fl
+                (ev (EOpenSrc true) (ev (EOpenDst true) (st_init (enc_all fs) 0))) BN V ltac:(intros D; discriminate))
+      as [s' [E [O [R P]]]].
+    { left. split; reflexivity. }
+    { reflexivity. }
+    { assert (H := enc_all_length fs V). lia. }
+    rewrite E. unfold close_and_remove. rewrite CD. cbn [Z.eqb andb].
+    destruct rm; [rewrite RMF|]; cbn; (split; [reflexivity|]); (split; [exact O|]); (split; [exact P|]); [reflexivity|intros D; discriminate].
+  Qed.
+
+  (* ---------------------------------------------------------------- MT: LZ4F_decompress fed to EOF *)
+  Lemma mt_frames_run : forall fs fuel fl s,
+    f_wlimit fl = None -> Forall valid_frame fs -> Forall (fun f => is_legacy f = false) fs -> (length fs < fuel)%nat ->
+    exists s', mt_frames fdec fuel fl (enc_all fs) s = Ret tt s' /\ stepto s s' (s_in s) (contents fs) (s_magic s).
+  Proof.
+    induction fs as [|f fs IH]; intros fuel fl s NW V NL LF; (destruct fuel; [cbn in LF; lia|]); cbn [mt_frames].
+    - cbn. exists s. split; [reflexivity|]. repeat split. rewrite app_nil_r. reflexivity.
+    - inversion V as [|? ? Vf Vr]; subst. inversion NL as [|? ? NLf NLr]; subst.
+      rewrite enc_all_cons, contents_cons.
+      destruct (enc_frame_head f Vf) as [body [EH RM]].
+      assert (L7 : 7 <= len (enc_frame f ++ enc_all fs)).
+      { rewrite len_app. assert (H := len_nonneg _ (enc_all fs)).
+        destruct f as [b c|bl|i p]; cbn [enc_frame valid_frame is_legacy] in *; [|discriminate|].
+        - destruct Vf as [Vf _]. destruct (frame_decode_suffix _ _ _ _ _ _ Vf) as [pre [EP [LP _]]]. unfold len. rewrite EP, app_length. lia.
+        - rewrite !len_app, !len_le_bytes4. assert (H2 := len_nonneg _ p). lia. }
+      destruct (enc_frame f ++ enc_all fs) as [|d0 dr] eqn:ED; [cbn in L7; lia|]. rewrite <- ED in *. clear ED d0 dr.
+      replace (len (enc_frame f ++ enc_all fs) <? minFHSize) with false by (symmetry; apply Z.ltb_ge; unfold minFHSize; lia).
+      assert (M4 : le_val (firstn 4 (enc_frame f ++ enc_all fs)) = magic_of f).
+      { rewrite EH, <- app_assoc, firstn_app_exact by apply le_bytes_length. apply le_val_le_bytes4. unfold LZ4IO_LEGACY_BOUND in RM. lia. }
+      rewrite M4.
+      destruct f as [b c|bl|i p]; cbn [magic_of enc_frame content valid_frame is_legacy] in *; [|discriminate|].
+      + destruct Vf as [Vf BO].
+        replace (Z.land LZ4IO_MAGICNUMBER LZ4IO_SKIPPABLEMASK =? LZ4IO_SKIPPABLE0) with false by reflexivity.
+        rewrite Z.eqb_refl. rewrite (frame_decode_ext _ _ _ _ _ _ (enc_all fs) Vf). cbn [app].
+        destruct (fwrite_nf fl c s NW) as [s1 [E1 [T1 _]]]. rewrite E1. clear E1.
+        destruct (IH fuel fl s1 NW Vr NLr ltac:(cbn in LF; lia)) as [s' [E T]].
+        exists s'. split; [exact E|]. destruct T1 as [A1 [A2 [A3 [A4 A5]]]]. destruct T as [B1 [B2 [B3 [B4 B5]]]].
+        repeat split; try congruence. rewrite B2, A2, app_assoc. reflexivity.
+      + destruct Vf as [VI VP].
+        assert (SKI := skippable_idx i VI). unfold is_skippable in SKI. rewrite SKI.
+        assert (RP : 0 <= len p < 4294967296) by (unfold len in *; lia).
+        assert (L8 : 8 <= len ((le_bytes 4 (LZ4IO_SKIPPABLE0 + i) ++ le_bytes 4 (len p) ++ p) ++ enc_all fs)).
+        { rewrite !len_app, !len_le_bytes4. assert (H1 := len_nonneg _ p). assert (H2 := len_nonneg _ (enc_all fs)). lia. }
+        replace (len ((le_bytes 4 (LZ4IO_SKIPPABLE0 + i) ++ le_bytes 4 (len p) ++ p) ++ enc_all fs) <? 8) with false
+          by (symmetry; apply Z.ltb_ge; exact L8).
+        rewrite <- !app_assoc. rewrite skipn_app_exact by apply le_bytes_length.
+        rewrite firstn_app_exact by apply le_bytes_length. rewrite le_val_le_bytes4 by exact RP.
+        replace (len (le_bytes 4 (LZ4IO_SKIPPABLE0 + i) ++ le_bytes 4 (len p) ++ p ++ enc_all fs) - 8 <? len p) with false.
+        2:{ symmetry. apply Z.ltb_ge. rewrite !len_app, !len_le_bytes4. assert (H2 := len_nonneg _ (enc_all fs)). lia. }
+        replace (skipn (Z.to_nat (8 + len p)) (le_bytes 4 (LZ4IO_SKIPPABLE0 + i) ++ le_bytes 4 (len p) ++ p ++ enc_all fs)) with (enc_all fs).
+        2:{ symmetry. rewrite !app_assoc. apply skipn_app_exact. rewrite !app_length, !le_bytes_length. unfold len. lia. }
+        destruct (IH fuel fl s NW Vr NLr ltac:(cbn in LF; lia)) as [s' [E T]].
+        exists s'. split; [exact E|]. exact T.
+  Qed.
+
+  Fixpoint mt_ok (fs : list frame) : Prop :=
+    match fs with
+    | [] => True
+    | f :: r => if is_lz4 f then Forall (fun g => is_legacy g = false) r else mt_ok r
+    end.
+
+  Lemma frames_loop_run_mt : forall fs fuel sk fl s,
+    benign fl -> Forall valid_frame fs -> mt_ok fs ->
+    at_frames s (enc_all fs) -> s_rerr s = false -> (length fs + 1 < fuel)%nat ->
+    exists s', frames_loop fdec bdec fuel true false false sk fl s = Ret 0 s' /\
+       s_out s' = s_out s ++ contents fs /\ s_rerr s' = false /\ s_pasteof s' = s_pasteof s.
+  Proof.
+    induction fs as [|f fs IH]; intros fuel sk fl s BN V OK AF RE LF.
+    - apply frames_loop_run; try assumption; [intros _; constructor|cbn in *; lia].
+    - inversion V as [|? ? Vf Vr]; subst. cbn [mt_ok] in OK.
+      destruct (is_lz4 f) eqn:LZ.
+      + (* the first LZ4 frame: the library is fed everything that follows *)
+        destruct f as [b c|bl|i p]; cbn [is_lz4] in LZ; try discriminate.
+        destruct fuel as [|fuel]; [cbn in LF; lia|]. cbn [frames_loop].
+        rewrite enc_all_cons in AF.
+        destruct (enc_frame_head _ Vf) as [body [EH RM]]. cbn [enc_frame magic_of] in EH, RM.
+        assert (BN' := BN). destruct BN' as [NR [NW _]].
+        cbn [enc_frame] in AF. rewrite EH, <- app_assoc in AF.
+        destruct (select_to_dispatch true false sk fl s _ _ NR AF RM) as [mn [s1 [ES T1]]]. rewrite ES. clear ES.
+        destruct T1 as [A1 [A2 [A3 [A4 A5]]]]. rewrite app_nil_r in A2.
+        unfold dispatch. replace (is_skippable LZ4IO_MAGICNUMBER) with false by reflexivity. rewrite Z.eqb_refl.
+        unfold lz4f_mt.
+        destruct (fread_nf fl (len (s_in s1) + 1) s1 NR) as [s2 [E2 [T2 _]]]. rewrite E2. clear E2.
+        destruct T2 as [B1 [B2 [B3 [B4 B5]]]].
+        rewrite firstn_all2 by (unfold len; lia). rewrite skipn_all2 in B1 by (unfold len; lia).
+        rewrite B4, A4, RE. rewrite A1.
+        replace (le_bytes 4 LZ4IO_MAGICNUMBER ++ body ++ enc_all fs) with (enc_all (FLz4 b c :: fs))
+          by (rewrite enc_all_cons; cbn [enc_frame]; rewrite EH, <- app_assoc; reflexivity).
+        destruct (mt_frames_run (FLz4 b c :: fs) (S (length (body ++ enc_all fs) + 4)) fl s2 NW V
+                    ltac:(constructor; [reflexivity|exact OK])) as [s3 [E3 T3]].
+        { assert (H := enc_all_length (FLz4 b c :: fs) V). rewrite enc_all_cons in H. cbn [enc_frame] in H.
+          rewrite EH, <- app_assoc, app_length, le_bytes_length in H. cbn [length] in *. lia. }
+        rewrite E3. clear E3. cbn [lift].
+        destruct T3 as [C1 [C2 [C3 [C4 C5]]]].
+        destruct (frames_loop_run [] fuel true sk fl s3 BN ltac:(constructor) ltac:(intros _; constructor)) as [s' [E [O [R P]]]].
+        { left. cbn [enc_all map concat]. split; congruence. }
+        { congruence. }
+        { cbn in *; lia. }
+        rewrite E. exists s'. split; [reflexivity|]. cbn [contents map concat] in O. rewrite app_nil_r in O.
+        repeat split; try congruence. rewrite O, C2, B2, app_nil_r, A2. reflexivity.
+      + destruct fuel; [cbn in LF; lia|]. cbn [frames_loop]. rewrite enc_all_cons in AF.
+        destruct (select_run f (enc_all fs) true sk fl s BN Vf ltac:(intros _; exact LZ) AF (enc_all_starts fs Vr) RE) as [s1 [ES [AF1 [O1 [R1 P1]]]]].
+        rewrite ES. clear ES.
+        destruct (IH fuel sk fl s1 BN Vr OK AF1 R1 ltac:(cbn in LF; lia)) as [s' [E [O2 [R2 P2]]]].
+        exists s'. split; [exact E|]. rewrite contents_cons. repeat split; try congruence. rewrite O2, O1, app_assoc. reflexivity.
+  Qed.
+
+  (* C15_mt_concat_partial *)
+  Theorem mt_concat_partial : forall fs sk rm fl,
+    benign fl -> Forall valid_frame fs -> mt_ok fs ->
+    let o := decompress_file fdec bdec true false false sk rm fl (enc_all fs) in
+    o_exit o = 0 /\ o_out o = contents fs /\ o_pasteof o = false /\ (rm = true -> o_removed o = true).
+  Proof.
+    intros fs sk rm fl BN V OK o. subst o.
+    assert (BN' := BN). destruct BN' as [NR [NW [OS [OD [CD RMF]]]]].
+    unfold decompress_file, decompress_dst, decompress_src. rewrite OD, OS. cbn [ev s_in st_init].
+    destruct (frames_loop_run_mt fs (2 * length (enc_all fs) + 3) sk fl
+                (ev (EOpenSrc true) (ev (EOpenDst true) (st_init (enc_all fs) 0))) BN V OK)
+      as [s' [E [O [R P]]]].
+    { left. split; reflexivity. }
+    { reflexivity. }
+    { assert (H := enc_all_length fs V). lia. }
+    rewrite E. unfold close_and_remove. rewrite CD. cbn [Z.eqb andb].
+    destruct rm; [rewrite RMF|]; cbn; (split; [reflexivity|]); (split; [exact O|]); (split; [exact P|]); [reflexivity|intros D; discriminate].
+  Qed.
 End Concat.
